@@ -760,6 +760,11 @@ class SymStr(Sym):
                 out.append(SymChar(SymInt(S(z3.If(toint(c) == ord(old), z3.IntVal(ord(new)), toint(c))), ub=256)))
         return SymStr(out)
 
+    def zfill(self, n):
+        if len(self.chars) >= n:
+            return SymStr(self.chars)
+        return SymStr(["0"] * (n - len(self.chars)) + self.chars)
+
     def lower(self):
         out = []
         for ch, c in zip(self.chars, self.codes()):
